@@ -151,8 +151,12 @@ Theorem C17_chunk_iterate_strict : forall sb, valid_size (spp_lensize sb) = true
   forall fuel addr, strict (api_chunk_iterate sb fuel addr).
 Proof. exact api_chunk_iterate_strict. Qed.
 Print Assumptions C17_chunk_iterate_strict.
+Theorem C17_read_strings_strict : forall sb, valid_size (spp_lensize sb) = true ->
+  forall fuel addr, strict (api_read_strings sb fuel addr).
+Proof. exact api_read_strings_strict. Qed.
+Print Assumptions C17_read_strings_strict.
 Theorem C17_read_compound_strict : forall sb, valid_size (spp_lensize sb) = true ->
-  forall fuel addr walk, strict (api_read_compound sb fuel addr walk).
+  forall fuel addr ctype walk, strict (api_read_compound sb fuel addr ctype walk).
 Proof. exact api_read_compound_strict. Qed.
 Print Assumptions C17_read_compound_strict.
 Theorem C17_read_attribute_strict : forall sb, valid_size (spp_lensize sb) = true ->
@@ -206,14 +210,23 @@ Theorem C17_chunk_iterate_damage : forall sb, valid_size (spp_lensize sb) = true
 Proof. exact chunk_iterate_damage. Qed.
 Print Assumptions C17_chunk_iterate_damage.
 (* Dataset.ReadCompound: the raw data, then every variable-length member through the global heap (for every walk over the bytes read) *)
-Theorem C17_read_compound_damage : forall sb, valid_size (spp_lensize sb) = true -> forall fuel addr walk,
-  let p := api_read_compound sb fuel addr walk in
+Theorem C17_read_compound_damage : forall sb, valid_size (spp_lensize sb) = true -> forall fuel addr ctype walk,
+  let p := api_read_compound sb fuel addr ctype walk in
   forall (f : bytes) (n : nat) (fl : oracle) (c : nat),
     run0 f p <> Panic ->
     (fst (run (firstn n f) fl c p) = run0 f p \/ fst (run (firstn n f) fl c p) = Err) /\
     fst (run (firstn n f) fl c p) <> Panic.
 Proof. exact read_compound_damage. Qed.
 Print Assumptions C17_read_compound_damage.
+(* Dataset.ReadStrings: the datatype check, then the layout dispatch of Read *)
+Theorem C17_read_strings_damage : forall sb, valid_size (spp_lensize sb) = true -> forall fuel addr,
+  let p := api_read_strings sb fuel addr in
+  forall (f : bytes) (n : nat) (fl : oracle) (c : nat),
+    run0 f p <> Panic ->
+    (fst (run (firstn n f) fl c p) = run0 f p \/ fst (run (firstn n f) fl c p) = Err) /\
+    fst (run (firstn n f) fl c p) <> Panic.
+Proof. exact read_strings_damage. Qed.
+Print Assumptions C17_read_strings_damage.
 (* Dataset.ReadAttribute(name): Attributes(), then ReadValue with variable-length strings through the global heap *)
 Theorem C17_read_attribute_damage : forall sb, valid_size (spp_lensize sb) = true -> forall fuel addr walk,
   let p := api_read_attribute sb fuel addr walk in
@@ -223,7 +236,7 @@ Theorem C17_read_attribute_damage : forall sb, valid_size (spp_lensize sb) = tru
     fst (run (firstn n f) fl c p) <> Panic.
 Proof. exact read_attribute_damage. Qed.
 Print Assumptions C17_read_attribute_damage.
-(* Dataset.Read / ReadStrings (the I/O of api_read_raw), in the same form *)
+(* Dataset.Read (api_read_raw), in the same form *)
 Theorem C17_read_damage : forall sb, valid_size (spp_lensize sb) = true -> forall fuel addr,
   let p := api_read_raw sb fuel addr in
   forall (f : bytes) (n : nat) (fl : oracle) (c : nat),
